@@ -124,6 +124,10 @@ def gen_table(rng, nmax=12, cmax=40, valid=True):
     rng.shuffle(table)
     for i, m in enumerate(table):
         m["name"] = f"m{i}"
+    if rng.random() < 0.15:
+        # weights given as Python integers (`probability=1`): a weight is a weight, whatever its numeric type
+        for m in table:
+            m["weight"] = int(rng.choice([0, 1, 1, 2, 3]))
     return table, cycles
 
 
